@@ -30,6 +30,10 @@ pub struct Trial {
     /// stream fed only up to that point; the rest is fed after the fault is lifted
     #[serde(default)]
     pub partial_cut: Option<u32>,
+    /// partial trials: bit 0 = render the loading frame once more after the fault is lifted and
+    /// before more bytes arrive; bit 1 = the rest arrives in two pieces with a loading render between
+    #[serde(default)]
+    pub partial_variant: u8,
 }
 
 #[derive(Clone, Debug, Serialize, Deserialize)]
@@ -133,7 +137,8 @@ mod imp {
                 }
             };
             let partial_cut = if !exhaustive_k && !fixture && rng.chance(1, 4) { Some(if rng.chance(2, 3) { 600 + rng.below(400) as u32 } else { rng.below(1000) as u32 }) } else { None };
-            trials.push(Trial { plan, first_keyframe: rng.below(nkey_guess) as usize, post: post_ops(&mut rng, nkey_guess as usize), partial_cut });
+            let partial_variant = rng.below(4) as u8;
+            trials.push(Trial { plan, first_keyframe: rng.below(nkey_guess) as usize, post: post_ops(&mut rng, nkey_guess as usize), partial_cut, partial_variant });
         }
         Scenario { case, corrupt, shuttle_pool: !fixture && rng.chance(1, 3), trials, exhaustive_k }
     }
@@ -257,8 +262,19 @@ mod imp {
                         if expanded > 0 {
                             tracker.expand_limit(expanded);
                         }
-                        let _ = img.render_loading_frame();
-                        if img.feed_bytes(&bytes[cut..]).is_err() {
+                        if trial.partial_variant & 1 != 0 {
+                            let _ = img.render_loading_frame();
+                        }
+                        if trial.partial_variant & 2 != 0 {
+                            let mid = cut + (bytes.len() - cut) / 2;
+                            if img.feed_bytes(&bytes[cut..mid]).is_err() {
+                                return;
+                            }
+                            let _ = img.render_loading_frame();
+                            if img.feed_bytes(&bytes[mid..]).is_err() {
+                                return;
+                            }
+                        } else if img.feed_bytes(&bytes[cut..]).is_err() {
                             return;
                         }
                         let _ = img.finalize();
